@@ -824,6 +824,21 @@ func handoffWithdrawn(c *cx, id string, rel, fname, queue string) {
 		return
 	}
 	spt, _ := g.Where(send.node)
+	// the caller takes back only what it queued itself: a receive from the
+	// queue that can run before this call's own send discards the record of
+	// another call that is still waiting for its completion (that call then
+	// ends with its context's error although the room answered it)
+	for i := range ops {
+		if ops[i].kind != "recv" || ops[i].class != queue {
+			continue
+		}
+		rp, ok := g.Where(ops[i].node)
+		if !ok {
+			continue
+		}
+		isSend := func(q eng.Point, nd ast.Node) bool { return nd == send.node || containsNode(nd, send.node) }
+		c.r.Check(id, f, "receive from the hand-off queue", "O: the function that queues hand-off records receives from the queue only after its own send (it withdraws its own record, never a concurrent caller's)", ops[i].node.Pos(), g.MustPassBefore(g.Entry(), rp, isSend, nil), "a record queued by another call can be taken here before this call has queued its own: that call's hand-off is lost and it waits until its context ends")
+	}
 	// completion channels: locals of channel type mentioned in the queued value
 	completion := map[string]bool{}
 	if ss, ok := send.node.(*ast.SendStmt); ok {
